@@ -16,6 +16,8 @@
 // Run-time kernel conditions: `h<f>` closes the peer end (socket pair: hang-up, + error if our send buffer was full; pipe read end:
 // hang-up; pipe write end: error), `s<f>` = the peer shuts down its write side.  `E<e>` = enable() while the interposed epoll_ctl
 // refuses the EPOLL_CTL_ADD it issues (ENOMEM / ENOSPC / EPERM in turn).
+// `D<e>` / `M<e>` = disable() / enable() while the interposed epoll_ctl refuses the EPOLL_CTL_MOD / _DEL it issues (ENOMEM / EINVAL / EIO in turn;
+// an ADD issued by the same call goes through).  `y<e>` = delete event object e and create a new one on the same address.
 // `eintr` makes the next wait return -1/EINTR without asking the kernel.
 // Masks are tbox bits (1 read, 2 write, 4 except).  Format matches lean/Driver/C03.lean.
 #include "vh.h"
@@ -36,6 +38,7 @@
 #include <cstring>
 #include <map>
 #include <memory>
+#include <new>
 #include <tbox/event/loop.h>
 #include <tbox/event/fd_event.h>
 #include <tbox/event/timer_event.h>
@@ -56,6 +59,37 @@ static int slot_of(int fd) {
 static bool g_eintr = false;              // op `eintr`: the next wait is interrupted
 static bool g_fail_add = false;           // script item `E<e>`: the EPOLL_CTL_ADD issued by this enable() is refused
 static int g_fail_no = 0;
+static bool g_fail_md = false;            // script items `D<e>` / `M<e>`: the EPOLL_CTL_MOD / _DEL issued by this disable() / enable() is refused
+
+// ---------------------------------------------------------------- allocator: address reuse on demand
+// Script item `y<e>` = delete event object e and create a new one AT THE SAME ADDRESS (what a plain malloc does for equal sizes
+// and ASan's quarantine never does).  The global operator new / delete are replaced (malloc / free underneath, so ASan still sees
+// every block): while g_aba_on is set, the block of the object being deleted is held back instead of freed, and the next request
+// of the size of an event object (measured when the first event of the process was created) gets exactly that block.
+static bool g_aba_on = false, g_measure = false;
+static void *g_aba_want = nullptr, *g_aba_held = nullptr;
+static size_t g_ev_size = 0;
+static void *aba_alloc(size_t n) {
+    if (g_measure) { g_measure = false; g_ev_size = n; }
+    if (g_aba_on && g_aba_held && n == g_ev_size) { void *p = g_aba_held; g_aba_held = nullptr; return p; }
+    void *p = malloc(n ? n : 1);
+    if (!p) { fputs("out of memory\n", stderr); _exit(3); }
+    return p;
+}
+static void aba_free(void *p) {
+    if (g_aba_on && p && p == g_aba_want) { g_aba_want = nullptr; g_aba_held = p; return; }
+    free(p);
+}
+void *operator new(size_t n) { return aba_alloc(n); }
+void *operator new[](size_t n) { return aba_alloc(n); }
+void *operator new(size_t n, const std::nothrow_t &) noexcept { return aba_alloc(n); }
+void *operator new[](size_t n, const std::nothrow_t &) noexcept { return aba_alloc(n); }
+void operator delete(void *p) noexcept { aba_free(p); }
+void operator delete[](void *p) noexcept { aba_free(p); }
+void operator delete(void *p, size_t) noexcept { aba_free(p); }
+void operator delete[](void *p, size_t) noexcept { aba_free(p); }
+void operator delete(void *p, const std::nothrow_t &) noexcept { aba_free(p); }
+void operator delete[](void *p, const std::nothrow_t &) noexcept { aba_free(p); }
 
 // ---------------------------------------------------------------- interposition
 static bool want_k = false;
@@ -75,6 +109,11 @@ extern "C" int epoll_ctl(int epfd, int op, int fd, struct epoll_event *ev) {
     static fn_t real = (fn_t)dlsym(RTLD_NEXT, "epoll_ctl");
     if (g_fail_add && op == EPOLL_CTL_ADD && slot_of(fd) >= 0) {
         static const int errs[3] = {ENOMEM, ENOSPC, EPERM};
+        errno = errs[g_fail_no++ % 3];
+        return -1;
+    }
+    if (g_fail_md && (op == EPOLL_CTL_MOD || op == EPOLL_CTL_DEL) && slot_of(fd) >= 0) {
+        static const int errs[3] = {ENOMEM, EINVAL, EIO};
         errno = errs[g_fail_no++ % 3];
         return -1;
     }
@@ -248,6 +287,7 @@ struct Fn { TimerEvent *timer = nullptr; std::vector<Act> script; };
 static std::vector<Fn> fns;               // callables: scripts run by one-shot timers and deferred tasks
 static bool g_quiet = false;              // the case is over: tasks still queued in the old loop do nothing
 static void run_fn(const char *kind, int k);
+static void set_cb(int id);
 
 static std::string bits() {
     std::string s;
@@ -286,7 +326,22 @@ static int apply(const Act &a) {
         case 'e': return o.p->enable();
         case 'E': { g_fail_add = true; bool r = o.p->enable(); g_fail_add = false; return r; }
         case 'd': return o.p->disable();
+        case 'D': { g_fail_md = true; bool r = o.p->disable(); g_fail_md = false; return r; }
+        case 'M': { g_fail_md = true; bool r = o.p->enable(); g_fail_md = false; return r; }
         case 'x': { FdEvent *p = o.p; o.p = nullptr; delete p; return 1; }
+        case 'y': {
+            FdEvent *p = o.p; o.p = nullptr;
+            void *addr = dynamic_cast<void *>(p);
+            g_aba_on = true; g_aba_want = addr; g_aba_held = nullptr;
+            delete p;
+            FdEvent *q = loop->newFdEvent("verif");
+            g_aba_on = false; g_aba_want = nullptr;
+            if (g_aba_held) { free(g_aba_held); g_aba_held = nullptr; }
+            objs[a.a].p = q; objs[a.a].slot = -1;
+            set_cb(a.a);
+            if (dynamic_cast<void *>(q) != addr) std::cout << "M aba-address-not-reused\n";
+            return 1;
+        }
     }
     return 0;
 }
@@ -324,7 +379,7 @@ static bool parse_act(const std::string &w, Act &a) {
             a.oneshot = p[3] == "o";
             return true;
         }
-        case 'e': case 'd': case 'x': case 'E': return num(rest, a.a, 1000);
+        case 'e': case 'd': case 'x': case 'E': case 'y': case 'D': case 'M': return num(rest, a.a, 1000);
         case 'c': case 'k': case 'r': case 'o': case 'u': case 'b': case 'w': case 'h': case 's': return slotnum(rest, a.f);
         case 't': case 'n': return num(rest, a.a, 16);
     }
@@ -338,14 +393,24 @@ static bool parse_script(const std::string &w, std::vector<Act> &out, int self) 
     std::stringstream ss(w); std::string item;
     while (std::getline(ss, item, ',')) {
         Act a; if (!parse_act(item, a)) return false;
-        if (a.kind == 'x' && a.a == self) return false;   // deleting oneself inside one's own callback is outside the property
+        if ((a.kind == 'x' || a.kind == 'y') && a.a == self) return false;   // deleting oneself inside one's own callback is outside the property
         out.push_back(a);
     }
     return true;
 }
 
+static void set_cb(int id) {
+    objs[id].p->setCallback([id](short m) {
+        std::cout << "F " << id << " " << m << " en=" << bits() << "\n";
+        std::vector<Act> sc = objs[id].script;
+        std::string rets;
+        for (auto &a : sc) rets.push_back(apply(a) ? '1' : '0');
+        std::cout << "E " << id << " rets=" << (rets.empty() ? "-" : rets) << " en=" << bits() << "\n";
+    });
+}
+
 static void reset_all() {
-    g_quiet = true; g_eintr = false; g_fail_add = false;
+    g_quiet = true; g_eintr = false; g_fail_add = false; g_fail_md = false;
     delete g_timer; g_timer = nullptr;
     for (auto &f : fns) { delete f.timer; f.timer = nullptr; }
     fns.clear();
@@ -425,15 +490,9 @@ int main() {
                     int id = (int)objs.size();
                     std::vector<Act> sc;
                     if (id >= 64 || !parse_script(w[1], sc, id)) { std::cout << "bad-op\n"; continue; }
-                    Obj o; o.p = loop->newFdEvent("verif"); o.script = sc;
+                    Obj o; g_measure = (g_ev_size == 0); o.p = loop->newFdEvent("verif"); g_measure = false; o.script = sc;
                     objs.push_back(o);
-                    objs[id].p->setCallback([id](short m) {
-                        std::cout << "F " << id << " " << m << " en=" << bits() << "\n";
-                        std::vector<Act> sc = objs[id].script;
-                        std::string rets;
-                        for (auto &a : sc) rets.push_back(apply(a) ? '1' : '0');
-                        std::cout << "E " << id << " rets=" << (rets.empty() ? "-" : rets) << " en=" << bits() << "\n";
-                    });
+                    set_cb(id);
                     std::cout << "P ret=1 en=" << bits() << "\n";
                     continue;
                 }
